@@ -981,6 +981,13 @@ fn run(op: &Value) -> Value {
             rt!(BearerToken, BearerToken::new("abc+/=").unwrap());
             rt!(bytes::Bytes, bytes::Bytes::from_static(&[0u8, 255, 254, 62, 63]));
             rt!(conjure_object::DateTime<conjure_object::Utc>, "2017-01-02T03:04:05.678Z".parse().unwrap());
+            // calendar corners: ISO-week years differ from calendar years around New Year; year 0 and 9999; nanoseconds; leap second
+            for t in ["2021-01-01T00:00:00Z", "2018-12-31T12:00:00Z", "2016-01-03T23:59:59Z", "2024-12-30T00:00:00Z", "0000-01-01T00:00:00Z", "9999-12-31T23:59:59.999999999Z",
+                      "1970-01-01T00:00:00Z", "2016-12-31T23:59:60Z", "2000-02-29T12:00:00.000000001Z", "1969-12-31T23:59:59.5Z"] {
+                let v: conjure_object::DateTime<conjure_object::Utc> = t.parse().unwrap();
+                let text = v.to_plain();
+                match <conjure_object::DateTime<conjure_object::Utc> as FromPlain>::from_plain(&text) { Ok(b) if b == v => {}, other => failed.push(format!("DateTime {} -> {:?} -> {:?}", t, text, other)) }
+            }
             rt!(verif_types::types::p::TestEnum, verif_types::types::p::TestEnum::TwoB);
             rt!(verif_types::types::p::TestEnum, verif_types::types::p::TestEnum::from_str("X_9").unwrap());
             rt!(verif_types::types::p::SafeLongAlias, verif_types::types::p::SafeLongAlias(SafeLong::min_value()));
